@@ -154,6 +154,8 @@ def run(scn):
     res = new_result()
     wd = build.workdir()
     try:
+        if scn['kind'] == 'pager-pairs':
+            return _run_pairs(scn, res)
         if scn['kind'] == 'pager-sim':
             return _run_sim(scn, res, wd)
         return _run_skoolmem(scn, res, wd)
@@ -294,6 +296,85 @@ def _run_sim(scn, res, wd):
     finally:
         roms = saved
 
+# -- exhaustive histories of length 2 ----------------------------------------------------------------
+
+PAIR_PORTS = (0x7FFD, 0x0000, 0x7DFC, 0x3FFD, 0x5555 & 0x7FFD)
+
+def pairs_total():
+    return len(COPIES) * 4 * 256
+
+def gen_pairs(k):
+    copy = COPIES[k % len(COPIES)]
+    engine = ENGINES[(k // len(COPIES)) % 4]
+    v1 = (k // (len(COPIES) * 4)) % 256
+    return {'kind': 'pager-pairs', 'copy': copy, 'engine': engine, 'machine': ('128K', '+2')[v1 & 1], 'v1': v1,
+            'port': PAIR_PORTS[(k // 7) % len(PAIR_PORTS)], 'miss': PORTS_MISS[k % len(PORTS_MISS)], 'lo': 0, 'hi': 256}
+
+def _run_pairs(scn, res):
+    """Every history (v1, v2), v2 in [lo, hi), of two values written to a port that matches the 0x7FFD decode, each
+    followed by a write to a port that does not match; after each write: latch copies, the mapping as seen by
+    executed loads from every 16K region, and one store through 0xC000 that must reach exactly one physical bank."""
+    tag = '%s/%s' % (scn['copy'], scn['engine'])
+    v1, port, miss = scn['v1'], scn['port'], scn['miss']
+    banks0 = [bytes([0x11 * (k + 1)]) * 0x4000 for k in range(8)]
+    sim = None
+    global roms
+    saved = roms
+    h = hashlib.sha256()
+    try:
+        for v2 in range(scn['lo'], scn['hi']):
+            if sim is None:
+                model = RefPaging(banks0, 0)
+                sim, tr = make_system(scn, banks0, 0)
+                roms = [bytes(r) for r in sim.memory.roms]
+                bump(res, 'fault:CRASH(rebuild)')
+            for n, v in enumerate((v1, v2)):
+                code = [0x01] + word(miss) + [0x3E, v ^ 0xFF, 0xED, 0x79, 0x01] + word(port) + [0x3E, v, 0xED, 0x79]
+                # LD A,(probe) / LD (0x8200+i),A for one address per region and both ends of the paged region
+                probes = (0x0001, 0x3FFE, 0x4001, 0x8100, 0xC000, 0xFFFF)
+                for i, a in enumerate(probes):
+                    code += [0x3A] + word(a) + [0x32] + word(0x8200 + i)
+                off = 0x1000 + (v1 * 31 + v2 * 7 + n) % 0x3000      # clear of the driver code and its result slots when bank 2 is paged at 0xC000
+                val = (v1 + 3 * v2 + n + 1) & 0xFF
+                code += [0x3E, val, 0x32] + word(0xC000 + off)
+                run_code(sim, code)
+                _model_code_write(model, code)
+                what = 'OUT (%d),%d; OUT (%d),%d [history %d,%d]' % (miss, v ^ 0xFF, port, v, v1, v2)
+                if model.out(port, v):
+                    bump(res, 'fault:PAGING_WRITE')
+                else:
+                    bump(res, 'probe:write_after_lock')
+                bump(res, 'events')
+                if sim.memory.o7ffd != model.o7ffd:
+                    return fail(res, 'C08/hist/o7ffd/%s' % scn['copy'], '%s after %s: memory.o7ffd=%d, last accepted write %d' % (tag, what, sim.memory.o7ffd, model.o7ffd))
+                if tr.out7ffd != model.o7ffd:
+                    return fail(res, 'C08/hist/tracer-latch/%s' % scn['copy'], '%s after %s: tracer.out7ffd=%d, last accepted write %d' % (tag, what, tr.out7ffd, model.o7ffd))
+                for i, a in enumerate(probes):
+                    want = model.peek(a)
+                    model.banks[2][0x200 + i] = want
+                    got = sim.memory[0x8200 + i]
+                    if got != want:
+                        return fail(res, 'C08/hist/mapping/%s' % scn['copy'], '%s after %s: LD A,(%d) read %d, model %d (ROM %d, bank %d at 0xC000)' % (
+                            tag, what, a, got, want, (model.o7ffd >> 4) & 1, model.o7ffd & 7))
+                model.poke(0xC000 + off, val)
+                for k in range(8):
+                    got = sim.memory.banks[k][off]
+                    if got != model.banks[k][off]:
+                        return fail(res, 'C08/hist/bank-content/%s' % scn['copy'], '%s after %s: store to %d: bank %d offset %d holds %d, model %d' % (tag, what, 0xC000 + off, k, off, got, model.banks[k][off]))
+                h.update(bytes([model.o7ffd]))
+            if model.o7ffd & 0x20 and not v1 & 0x20:
+                sim = None      # only a restart clears the lock
+        # ROMs untouched (macro copies run on the skool memory model, whose ROM slots are ordinary lists)
+        if sim is not None and scn['copy'] not in ('macro', 'audio128'):
+            for k in range(2):
+                if bytes(sim.memory.roms[k]) != roms[k]:
+                    return fail(res, 'C08/hist/rom-modified', '%s: ROM %d modified by history starting with %d' % (tag, k, v1))
+        res['sigs'].append('pairs|%s|%s|%d' % (scn['copy'], scn['engine'], v1 >> 3))
+        res['digest'] = h.hexdigest()
+        return res
+    finally:
+        roms = saved
+
 # -- skool-file memory model -------------------------------------------------------------------
 
 def gen_skoolmem(rng, tier, index):
@@ -428,6 +509,13 @@ def gen(rng, tier, index):
     return gen_sim(rng, tier, index - index // 5)
 
 def shrink_candidates(scn):
+    if scn['kind'] == 'pager-pairs':
+        lo, hi = scn['lo'], scn['hi']
+        if hi - lo > 1:
+            mid = (lo + hi) // 2
+            yield dict(scn, hi=mid)
+            yield dict(scn, lo=mid)
+        return
     ops = scn['ops']
     def cp(o):
         c = json.loads(json.dumps(scn)); c['ops'] = o; return c
